@@ -194,6 +194,7 @@ def run(ctx):
     F.run_recorded(ctx, PID, "random-damage", 40 if ctx.quick else 2000, 30 if ctx.quick else 50, OPS + ["open_sp", "init", "open_iter", "remove"], projects=("P",))
     byte_level(ctx)
     F.large_workspace(ctx, PID)
+    F.cli_front(ctx, PID)
     ctx.cov["binding_selftest"] = F.selftest(ctx, PID)
 
 
